@@ -43,6 +43,9 @@ class World:
 
     def __init__(self, salt=0):
         self.salt = salt
+        self.nent = 0             # entries so far (registered + pushed during unwinds), as the spec numbers them
+        self.current = None       # the stack being unwound (what a "push" exit registers on)
+        self.std = False
         self.log = []  # (entry, label of the exception received)
         self.block = None
         self.new = {}
@@ -65,6 +68,12 @@ class World:
 
     def core(self, e, beh, exc):
         self.log.append((e, self.label(exc)))
+        if beh == "push":
+            self.nent += 1
+            e2 = self.nent
+            if self.current is not None:     # ExitStack / AsyncExitStack: one more callback, same stack
+                self.current.callback(lambda a, kw=None, e2=e2: self.core(e2, "falsy", None), "arg", kw=1)
+            return False
         if beh == "raise" or (beh == "raisewh" and exc is not None):
             raise self.exc_of(e)
         if beh == "reraise" and exc is not None:
@@ -247,6 +256,7 @@ def _replay_path(args):
         op = a[0]
         if op == "register":
             e, k, b = a[1], a[2], a[3]
+            w.nent = w2.nent = e
             ck = concrete(e, k, salt)
             ra, rs, _ = w.make(e, ck, b)
             r = run(ra(stack), w.acct)
@@ -278,6 +288,8 @@ def _replay_path(args):
                 ww.block = BlockError() if x else None
             start = len(w.log)
             start2 = len(w2.log)
+            w.current, w2.current = tgt, tstd
+            nent0 = w.nent
             if op.startswith("aclose"):
                 res = run(tgt.aclose(), w.acct)
                 res2 = run(tstd.aclose(), w2.acct)
@@ -289,8 +301,17 @@ def _replay_path(args):
             # the nested with-statement twin over the entries the model says are owned
             wn = World(salt)
             wn.block = BlockError() if x else None
+            # a "push" exit registers one more callback that runs right after it: in terms of nested
+            # statements, a callback-manager just outside the pushing one (ids in unwinding order)
+            pushed, nid = {}, nent0
+            for (e, ck, b) in reversed(entries[which]):
+                if b == "push":
+                    nid += 1
+                    pushed[e] = nid
             cms = []
             for (e, ck, b) in entries[which]:
+                if e in pushed:
+                    cms.append(wn.make(pushed[e], "cba", "falsy")[2])
                 cms.append(wn.make(e, ck, b)[2])
             resn = run(nested(cms, wn.block), wn.acct)
             if resn[0] == "raised" and resn[1] is wn.block:
@@ -353,12 +374,13 @@ def random_history(args):
     stack = L.ExitStack()
     stacks = {"main": stack, "moved": None}
     ev, nent = [], 0
-    behs = ["falsy", "truthy", "raise", "raisewh", "reraise"]
+    behs = ["falsy", "truthy", "raise", "raisewh", "reraise", "push"]
     for _ in range(rnd.randint(4, 12)):
         x = rnd.random()
-        if x < 0.5 and nent < 7:
+        if x < 0.5 and w.nent < 7:
             k, b = rnd.choice(["exit", "exit", "cb"]), rnd.choice(behs)
-            nent += 1
+            w.nent += 1
+            nent = w.nent
             ra, _, _ = w.make(nent, concrete(nent, k, seed % 5), b)
             r = run(ra(stack), w.acct)
             if r[0] != "ok":
@@ -384,6 +406,7 @@ def random_history(args):
             w.block = BlockError() if xx else None
             start = len(w.log)
             tgt = stacks[which]
+            w.current = tgt
             if acl:
                 res = run(tgt.aclose(), w.acct)
             else:
@@ -406,7 +429,7 @@ def beyond_bounds(tier, seed, v):
         if h["error"]:
             v.violation("C14/ExitStack/operation-raises", {"engine": "exitstack", "mode": "random", "observed": h["error"], "history": h["ev"][-5:]})
     hs = [h for h in hs if not h["error"]]
-    const = cfg_text(8, 1000, edges=False)
+    const = cfg_text(16, 1000, edges=False)
     const = const[: const.index("INIT Init")]
     rejected, st = validate("ExitStackTrace", [{"cfg": {}, "ev": h["ev"]} for h in hs], extra_cfg=const, spec="Spec2")
     for idx, matched in rejected.items():
